@@ -695,10 +695,12 @@ func (p *Path) spinYield(th *Thread) {
 	}
 	others := p.enabled(th)
 	if len(others) == 0 {
+		p.sched = append(p.sched, th.id)
 		return
 	}
 	// a spinning thread always gives way (not counted as a preemption)
 	k := p.choose(len(others))
+	p.sched = append(p.sched, others[k].id)
 	p.switchTo(th, others[k])
 }
 
